@@ -74,6 +74,14 @@ class _Interp:
             base = self.ev(e.value)
             self.ev(e.slice)
             return {("S", p) for k, p in base}
+        if isinstance(e, ast.Tuple) and not any(isinstance(x, ast.Starred) for x in e.elts):
+            # a tuple literal keeps its elements apart ("E<i>:<kind>"): `return ds, fresh_dict` followed by
+            # `ds, kw = f(ds)` must not make `kw` an alias of the caller's `ds`
+            out = set()
+            for i, x in enumerate(e.elts):
+                for k, p in self.ev(x):
+                    out.add((f"E{i}:{k}" if k in ("S", "C") else "C", p))
+            return out
         if isinstance(e, (ast.Tuple, ast.List, ast.Set)):
             out = set()
             for x in e.elts:
@@ -194,7 +202,11 @@ class _Interp:
             out = set()
             for k2, p2 in sm["ret"]:
                 for k, p in bind.get(p2, set()):
-                    out.add(("S", p) if (k2 == "S" and k == "S") else ("C", p))
+                    if k2.startswith("E") and ":" in k2:
+                        pos, inner = k2.split(":")
+                        out.add((f"{pos}:{'S' if (inner == 'S' and k == 'S') else 'C'}", p))
+                    else:
+                        out.add(("S", p) if (k2 == "S" and k == "S") else ("C", p))
             return out
         if isinstance(f, ast.Name) and f.id in ("zip", "enumerate", "iter", "next", "reversed", "list", "tuple", "dict", "sorted", "filter", "map"):
             out = set()
@@ -209,8 +221,17 @@ class _Interp:
         if isinstance(tgt, ast.Name):
             self.env[tgt.id] = set(t)
         elif isinstance(tgt, (ast.Tuple, ast.List)):
-            for x in tgt.elts:
-                self.bind(x.value if isinstance(x, ast.Starred) else x, {("S", p) for k, p in t})
+            positional = not any(isinstance(x, ast.Starred) for x in tgt.elts)
+            for i, x in enumerate(tgt.elts):
+                ti = set()
+                for k, p in t:
+                    if k.startswith("E") and ":" in k and positional:
+                        pos, inner = k.split(":")
+                        if pos == f"E{i}":
+                            ti.add((inner, p))
+                    else:
+                        ti.add(("S", p))
+                self.bind(x.value if isinstance(x, ast.Starred) else x, ti)
         elif isinstance(tgt, ast.Subscript):
             base = self.ev(tgt.value)
             self.ev(tgt.slice)
